@@ -27,7 +27,7 @@ DOCUMENTED_NINJA_ONLY = ('-fdiagnostics-color', '-fcolor-diagnostics')
 
 def floors(tier):
     return {'steps-compared': 150, 'compdb-entries-compared': 60, 'programs': 10,
-            'touch-sets-compared': 20}
+            'touch-sets-compared': 20, 'env-compared': 10}
 
 
 def cases(tier, seed):
@@ -196,6 +196,12 @@ def run_case(case):
                 res.violate(('env-differs', kind),
                             dict(wb, step=sid, make=ra['env'].get('VF_E'),
                                  ninja=rb['env'].get('VF_E')))
+            want_env = m.byid[m.steps[sid]['node']].get('env')
+            if want_env is not None or ra['env'].get('VF_E') is not None:
+                res.ev('env-compared')
+                if ra['env'].get('VF_E') != want_env:
+                    res.violate(('env-differs-from-script', kind),
+                                dict(wb, step=sid, script=want_env, make=ra['env'].get('VF_E')))
         # (d) compile_commands.json against the Make records
         for backend, p in projs.items():
             path = os.path.join(p.bld, 'compile_commands.json')
